@@ -313,6 +313,12 @@ def s45_digest(f):
                                     if d.get("did") == lhs.get("did") and d.get("init") is not None:
                                         r = strip(d["init"])
                                         init = r.get("callee") if r is not None and r["k"] == "CallExpr" else common.render(r)
+                    if lp["k"] == "ForStmt" and lp["c"][0] is not None:
+                        for y in walk(lp["c"][0]):
+                            if y["k"] == "BinaryOperator" and y["op"] == "=" and strip(y["c"][0]) is not None \
+                                    and strip(y["c"][0]).get("did") == lhs.get("did"):
+                                r = strip(y["c"][1])
+                                init = r.get("callee") if r is not None and r["k"] == "CallExpr" else common.render(r)
                     folds.append((f.unit, name, lp["l"], lhs["n"], op, init))
         # push / pop
         for c in calls(fn["body"]):
